@@ -1,17 +1,24 @@
 /-
 Props/C13.lean — every input is either accepted or rejected with a documented diagnostic.
 
-The full property is FALSE for the model (and for the Python): outcomes of kind `internal`
-(an exception other than ParseError / TranslationError escaping) exist.  An INCLUDE of a file that
-does not exist used to be the smallest witness; after the repair of INCLUDE handling it is a diagnostic
-(see Props/C19.lean, `include_missing_diag`), and the witness kept here is a program that runs past
-address 65535 (`ORG $FFFF`, `NOP`, `NOP`: the address of the second NOP is not a 16-bit value and the
-ValueTypeError escapes `Program.process`).  What holds, and is proved here:
-no stage of `assemble` diverges (the PCR size loop terminates within `length + 1` passes), and
-the line parser never fails with anything but a diagnostic.
+The full property is FALSE for the model: outcomes of kind `internal` (an exception other than ParseError /
+TranslationError escaping `Program.process`) exist.  History of the witnesses: an INCLUDE of a missing file
+(repaired, see Props/C19.lean `include_missing_diag`); a program that runs past address 65535 (`ORG $FFFF`,
+`NOP`, `NOP`; repaired by fix 0addc5e, now `C13_formerWitness_diag`).  After fixes 0addc5e, dfad397, 145359a
+exactly two sources are left, and that is a theorem (`assemble_internal_only_from_expand`):
+  (1) more than 64 nested INCLUDE files (the fuel of `expand`, Python: RecursionError) — `C13_deepWitness`;
+  (2) a program of more than 65536 statements in which a PCR offset expression subtracts a label from a symbol
+      that is neither a number nor an address: `calculate_address_offset` takes the STATEMENT INDEX of the label
+      for the constant — `C13_witness` (70002 lines), `C13_witness_internal`.
+What holds, and is proved here: no stage of `assemble` diverges, the line parser never fails with anything but
+a diagnostic, and C13 itself for every input whose INCLUDE expansion succeeds with at most 65536 statements
+(`C13_of_expand_ok`).
 -/
 import CoCoVerif.Lemmas.LayoutFix
 import CoCoVerif.Lemmas.LayoutEval
+import CoCoVerif.Props.C19
+import CoCoVerif.Lemmas.NoIntFix
+import CoCoVerif.Lemmas.NoIntHuge
 
 namespace CoCo.Props
 open CoCo CoCo.Asm
@@ -42,19 +49,20 @@ theorem parseLines_no_internal (ls : List Str) : parseLines ls ≠ .internal ∧
 
 /-! ### refutation of the full statement -/
 
-/-- `ORG $FFFF`, `NOP`, `NOP`: the second NOP would sit at address 65536 -/
-def C13_witness : List Str := [" ORG $FFFF\n", " NOP\n", " NOP\n"].map String.toList
+/-- REPAIRED (fix 0addc5e; formerly `C13_witness`): `ORG $FFFF`, `NOP`, `NOP` -- the second NOP would sit at
+address 65536 -- is now a diagnostic ("outside the 64K address space") -/
+def C13_formerWitness : List Str := [" ORG $FFFF\n", " NOP\n", " NOP\n"].map String.toList
 
-/-- a program without INCLUDE whose assembly (computed by `assembleFrom`) ends in `internal` -/
-private def endsInternal (lines : List Str) : Bool :=
+/-- a program without INCLUDE whose assembly (computed by `assembleFrom`) ends in `diag` -/
+private def endsDiag (lines : List Str) : Bool :=
   match parseLines lines with
   | .ok p => p.all (fun s => !s.row.isInclude) &&
-      (match assembleFrom p with | .internal => true | _ => false)
+      (match assembleFrom p with | .diag => true | _ => false)
   | _ => false
 
-private theorem endsInternal_sound {lines : List Str} (h : endsInternal lines = true) (fs : Files) :
-    assemble fs lines = .internal := by
-  unfold endsInternal at h
+private theorem endsDiag_sound {lines : List Str} (h : endsDiag lines = true) (fs : Files) :
+    assemble fs lines = .diag := by
+  unfold endsDiag at h
   split at h
   · rename_i p hp
     simp only [Bool.and_eq_true] at h
@@ -65,23 +73,138 @@ private theorem endsInternal_sound {lines : List Str} (h : endsInternal lines = 
     · cases h2
   · cases h
 
-/-- an address above 65535: ValueTypeError escapes `Program.process` (whatever the host files are) -/
-theorem C13_witness_internal' (fs : Files) : assemble fs C13_witness = .internal :=
-  endsInternal_sound (by decide +kernel) fs
+theorem C13_formerWitness_diag (fs : Files) : assemble fs C13_formerWitness = .diag :=
+  endsDiag_sound (by decide +kernel) fs
+
+/-- witness 1: a chain of 65 nested INCLUDE files (`fsDeep` of Props/C19.lean).  The model's `expand` runs out of
+its fuel of 64, which stands for Python's RecursionError escaping `Program.process`. -/
+def C13_deepWitness : List Str := [deepLine 63] ++ []
+
+theorem C13_deepWitness_internal : assemble fsDeep C13_deepWitness = .internal :=
+  deep63_internal (rest := []) rfl
+
+/-- witness 2 (FINDING, no INCLUDE involved): 70000 times ` ORG 0`, then `FAR LEAX X-FAR,PCR`, then `X EQU 1,2`.
+`X` is a symbol that is neither a number nor an address, so `X-FAR` stays an address expression; the size loop
+sees no constant in it and picks the 8-bit PCR form; `fix_addresses` then computes the "target" as
+`address(FAR) − 70000` (the statement index of `FAR` is taken for the constant), and
+`NumericValue(70000 − 0 − 3, size_hint=2)` raises a ValueTypeError that nothing catches.
+(With 65538 instead of 70000 filler lines the program is still accepted, with 65539 it fails.) -/
+def C13_witness : List Str := List.replicate 70000 hugeOrg ++ [hugeFar, hugeX]
+
+/-- ... whatever the host files are -/
+theorem C13_witness_internal' (fs : Files) : assemble fs C13_witness = .internal := huge_internal fs 70000 rfl
 
 theorem C13_witness_internal : assemble [] C13_witness = .internal := C13_witness_internal' []
+
+theorem C13_witness_length : C13_witness.length = 70002 := by
+  unfold C13_witness; rw [List.length_append, List.length_replicate]; rfl
 
 theorem C13_Statement_false : ¬ C13_Statement := by
   intro h
   rcases h [] C13_witness with ⟨a, ha⟩ | ha <;> rw [C13_witness_internal] at ha <;> cases ha
 
-/-- What holds of C13: the PCR loop and the whole assembly never run out of fuel, and parsing a line
-fails only with a diagnostic.  (Known finding: `internal` outcomes are reachable, `C13_Statement_false`.) -/
+/-- the same from the deep-INCLUDE witness alone -/
+theorem C13_Statement_false_deep : ¬ C13_Statement := by
+  intro h
+  rcases h fsDeep C13_deepWitness with ⟨a, ha⟩ | ha <;> rw [C13_deepWitness_internal] at ha <;> cases ha
+
+/-! ### where internal errors can still come from -/
+
+/-- **C13, the main positive result** (after fixes 0addc5e, dfad397, 145359a).  An internal error of
+`Program.process` has one of two causes: the INCLUDE expansion ran out of its nesting budget (more than 64
+nested files; Python: RecursionError), or the expanded program has more than 65536 statements (see
+`C13_witness` above for why that bound is there).  Every other stage -- symbol table, `resolve_symbols`,
+`translate`, the PCR size loop, address assignment, `fix_addresses`, the final symbol table -- ends in a
+result or in a diagnostic on statements that came out of the parser. -/
+theorem assemble_internal_only_from_expand (fs : Files) (lines : List Str)
+    (h : assemble fs lines = .internal) :
+    ∃ parsed, parseLines lines = .ok parsed ∧
+      (expand fs 64 [] parsed = .internal ∨
+        ∃ ss0, expand fs 64 [] parsed = .ok ss0 ∧ 65536 < ss0.length) := by
+  rcases parseLines_cases lines with ⟨parsed, hp⟩ | hp
+  · refine ⟨parsed, hp, ?_⟩
+    rw [assemble_eq] at h
+    have hf : front fs lines = expand fs 64 [] parsed := by unfold front; rw [hp]
+    rw [hf] at h
+    cases he : expand fs 64 [] parsed with
+    | ok ss0 =>
+      rw [he] at h
+      dsimp only at h
+      refine Or.inr ⟨ss0, rfl, ?_⟩
+      rcases Nat.lt_or_ge 65536 ss0.length with hlt | hge
+      · exact hlt
+      · exact absurd h (back_ne_internal (expand_parsed hp he) hge)
+    | diag => rw [he] at h; cases h
+    | internal => exact Or.inl rfl
+    | diverged => rw [he] at h; cases h
+  · unfold assemble at h
+    rw [hp] at h
+    cases h
+
+/-- the contrapositive, in the form "accepted or rejected with a diagnostic": C13 holds for every input whose
+INCLUDE expansion succeeds with at most 65536 statements -/
+theorem C13_of_expand_ok (fs : Files) (lines : List Str) (parsed ss0 : List Stmt)
+    (hp : parseLines lines = .ok parsed) (he : expand fs 64 [] parsed = .ok ss0) (hN : ss0.length ≤ 65536) :
+    (∃ a, assemble fs lines = .ok a) ∨ assemble fs lines = .diag := by
+  cases h : assemble fs lines with
+  | ok a => exact Or.inl ⟨a, rfl⟩
+  | diag => exact Or.inr rfl
+  | internal =>
+    obtain ⟨p', hp', h'⟩ := assemble_internal_only_from_expand fs lines h
+    rw [hp] at hp'; cases hp'
+    rcases h' with h' | ⟨ss0', h', hlt⟩
+    · rw [he] at h'; cases h'
+    · rw [he] at h'; cases h'; omega
+  | diverged => exact absurd h (assemble_not_diverged fs lines)
+
+/-- without INCLUDE statements (so whatever the host files are) and with at most 65536 lines: C13 holds -/
+theorem C13_no_include (fs : Files) (lines : List Str) (parsed : List Stmt)
+    (hp : parseLines lines = .ok parsed) (hni : parsed.all (fun s => !s.row.isInclude) = true)
+    (hN : parsed.length ≤ 65536) :
+    (∃ a, assemble fs lines = .ok a) ∨ assemble fs lines = .diag :=
+  C13_of_expand_ok fs lines parsed parsed hp (expand_noinclude fs 63 [] parsed hni) hN
+
+theorem parseLines_length_le : ∀ (ls : List Str) (r : List Stmt), parseLines ls = .ok r → r.length ≤ ls.length := by
+  intro ls
+  induction ls with
+  | nil => intro r h; simp [parseLines] at h; subst h; simp
+  | cons l rest ih =>
+    intro r h
+    unfold parseLines at h
+    split at h
+    · have := ih r h; simp only [List.length_cons]; omega
+    · cases hr : parseLines rest with
+      | ok r2 =>
+        rw [hr] at h; simp only [Outcome.ok.injEq] at h; subst h
+        have := ih r2 hr; simp only [List.length_cons]; omega
+      | _ => rw [hr] at h; cases h
+    · cases h
+    · cases h
+    · cases h
+
+/-- C13 for every program of at most 65536 lines without an INCLUDE statement -/
+theorem C13_short_program (fs : Files) (lines : List Str) (parsed : List Stmt)
+    (hp : parseLines lines = .ok parsed) (hni : parsed.all (fun s => !s.row.isInclude) = true)
+    (hN : lines.length ≤ 65536) :
+    (∃ a, assemble fs lines = .ok a) ∨ assemble fs lines = .diag :=
+  C13_no_include fs lines parsed hp hni (Nat.le_trans (parseLines_length_le lines parsed hp) hN)
+
+/-- What holds of C13.  (1)-(4): the PCR loop and the whole assembly never run out of fuel, and parsing fails
+only with a diagnostic.  (5): an internal error comes from the nesting budget of INCLUDE or needs more than 65536
+statements.  (6): C13 itself whenever the INCLUDE expansion succeeds with at most 65536 statements.
+(Findings: `internal` outcomes are reachable in both ways, `C13_deepWitness_internal`, `C13_witness_internal`;
+hence `C13_Statement_false`.) -/
 theorem C13_partial :
     (∀ ss : List Stmt, pcrLoop (ss.length + 1) ss ≠ .diverged) ∧
     (∀ fs lines, assemble fs lines ≠ .diverged) ∧
     (∀ l, parseLine l ≠ .internal ∧ parseLine l ≠ .diverged) ∧
-    (∀ ls, parseLines ls ≠ .internal ∧ parseLines ls ≠ .diverged) :=
-  ⟨pcrLoop_not_diverged, assemble_not_diverged, parseLine_no_internal, parseLines_no_internal⟩
+    (∀ ls, parseLines ls ≠ .internal ∧ parseLines ls ≠ .diverged) ∧
+    (∀ fs lines, assemble fs lines = .internal →
+      ∃ parsed, parseLines lines = .ok parsed ∧
+        (expand fs 64 [] parsed = .internal ∨ ∃ ss0, expand fs 64 [] parsed = .ok ss0 ∧ 65536 < ss0.length)) ∧
+    (∀ fs lines parsed ss0, parseLines lines = .ok parsed → expand fs 64 [] parsed = .ok ss0 →
+      ss0.length ≤ 65536 → (∃ a, assemble fs lines = .ok a) ∨ assemble fs lines = .diag) :=
+  ⟨pcrLoop_not_diverged, assemble_not_diverged, parseLine_no_internal, parseLines_no_internal,
+   assemble_internal_only_from_expand, C13_of_expand_ok⟩
 
 end CoCo.Props
